@@ -141,6 +141,9 @@ class MNode:
       ba = self.sv.sig.bind_partial(*args, **kwargs)
     except TypeError as e:
       raise Invalid(str(e)) from None
+    # tags declared by Annotated[...] parameter annotations
+    for pname, tags in getattr(self.fn, '_fsim_ann', {}).items():
+      self.tags.setdefault(pname, set()).update(tags)
     for name, value in ba.arguments.items():
       if name == self.sv.va:
         for j, v in enumerate(value):
